@@ -3,16 +3,18 @@
   `File.ChecksumHeader` in pkg/uefi/file.go) in Go semantics: every slice of a node buffer is a faulting
   primitive.  What the walkers *report* (validation messages, files written) is not modelled here —
   only where they touch buffers.  `json` and `table` have no slice / index / make on node data
-  (inventory theorems in TotalTie.lean) and `assemble` is covered by T2 only.
+  (inventory theorems in TotalTie.lean); `assemble` is TotalAsm.lean, the walkers over NVAR nodes and the ME
+  partition table are TotalNvarWalk.lean (follow-up wp-c05b).
 
   The model follows the code as repaired by
     fixes/C05-checksumheader-bounds.diff (in /repo)   ChecksumHeader clips the header size to the buffer
     fixes/C09-large-bit.diff (wp-c09)                 a file with the large attribute but a 3-byte size is reported
                                                       and not checksummed — before it, `validate` sliced
                                                       `f.Buf()[32:]` of a 24-byte file (attributes large+checksum)
-  NVAR entries and the ME partition table are not part of the shared tree (they are walked in Go only).
+  NVAR entries and the ME partition table are not part of the shared tree: TotalNvarWalk.lean.
 -/
 import FianoModel.Uefi.TotalFlash
+import FianoModel.Uefi.TotalAsmBase
 
 namespace Fiano.Uefi.Total
 open Fiano GoM Fiano.Uefi
@@ -43,12 +45,26 @@ def validateFileNodeG (i : FileInfo) (buf : Bytes) : GoM Unit :=
     pure ()
   else pure ()
 
+/-- `blockMapEnd(buf)` of validate.go (added by fixes/C09-headerlen-blockmap.diff):
+    `for off := 56; off+8 <= len(buf); off += 8 { if binary.LittleEndian.Uint64(buf[off:]) == 0 { return off+8 } }` -/
+def blockMapEndG (buf : Bytes) : Nat → Nat → GoM Nat
+  | fuel, off =>
+    if off + 8 ≤ buf.length then
+      match fuel with
+      | 0 => outOfFuel
+      | fuel+1 => do
+        let t ← sliceFromG "blockMapEnd: buf[off:]" buf off
+        putG "blockMapEnd: binary.LittleEndian.Uint64(buf[off:])" t 8
+        if fromLE (t.take 8) = 0 then pure (off + 8) else blockMapEndG buf fuel (off + 8)
+    else pure 0
+
 /-- the `*uefi.FirmwareVolume` case of `Validate.Visit` -/
 def validateFvNodeG (i : FvInfo) (buf : Bytes) : GoM Unit :=
   let fvlen := buf.length
   if fvlen < 64 then pure () else
   if i.headerLen < 64 then pure () else
   if fvlen < i.headerLen then pure () else do
+  let _ ← blockMapEndG buf (buf.length / 8 + 1) 56
   let _ ← sliceToG "Validate.Visit: f.Buf()[:f.HeaderLen]" buf i.headerLen
   pure ()
 
